@@ -15,11 +15,21 @@ type Stats struct {
 	Capped   bool
 	Outcomes map[string]int64
 	States   map[string]bool // distinct pending-operation vectors seen at scheduling points
+	// Delay switches the budget from preemptions to deviations (delay bounding, Emmi/Qadeer/
+	// Rakamaric 2011): the default scheduler is deterministic (keep running; when the running
+	// thread blocks or ends, lowest id first) and EVERY departure from it costs one unit, also
+	// at points where the running thread is not enabled. Needed where many symmetric worker
+	// goroutines make even the zero-preemption space factorial.
+	Delay bool
 }
 
-func preemptionsBefore(x *vsched.Exec, i int) int {
+func preemptionsBefore(x *vsched.Exec, i int, delay bool) int {
 	n := 0
 	for _, p := range x.Points[:i] {
+		if delay && len(p.Enabled) > 0 && p.Enabled[0] >= 0 && p.Chosen != 0 {
+			n++
+			continue
+		}
 		if len(p.Enabled) > 0 && p.Enabled[0] >= 0 && p.Running >= 0 && p.Enabled[0] == p.Running && p.Chosen != 0 {
 			n++
 		}
@@ -54,11 +64,11 @@ func Explore(run func(prefix []int) *vsched.Exec, bound int, maxExecs int64, st 
 		visit(x, choices)
 		for i := len(prefix); i < len(x.Points); i++ {
 			p := x.Points[i]
-			cost := preemptionsBefore(x, i)
+			cost := preemptionsBefore(x, i, st.Delay)
 			isThreadPoint := p.Enabled[0] >= 0
 			for alt := 1; alt < len(p.Enabled); alt++ {
 				c := cost
-				if isThreadPoint && p.Running >= 0 && p.Enabled[0] == p.Running {
+				if isThreadPoint && (st.Delay || p.Running >= 0 && p.Enabled[0] == p.Running) {
 					c++
 				}
 				if bound >= 0 && c > bound {
